@@ -64,8 +64,130 @@ let cmd_genname () =
     done
   with End_of_file -> ()
 
+(* ---------------- scheduler replay ---------------- *)
+let rec pos_of_int n = if n <= 1 then XH else if n land 1 = 0 then XO (pos_of_int (n lsr 1)) else XI (pos_of_int (n lsr 1))
+let z_of_int n = if n = 0 then Z0 else if n > 0 then Zpos (pos_of_int n) else Zneg (pos_of_int (-n))
+let rec int_of_pos = function XH -> 1 | XO p -> 2 * int_of_pos p | XI p -> 2 * int_of_pos p + 1
+let int_of_z = function Z0 -> 0 | Zpos p -> int_of_pos p | Zneg p -> - (int_of_pos p)
+let nat s = nat_of_int (int_of_string s)
+
+let parse_err s =
+  match s.[0] with
+  | 'U' -> EUser (nat (String.sub s 1 (String.length s - 1)))
+  | 'C' -> ECtx (nat (String.sub s 1 (String.length s - 1)))
+  | 'I' -> EInvalid
+  | 'X' -> EExit
+  | _ -> failwith ("bad err " ^ s)
+let show_err = function
+  | EUser n -> "U" ^ string_of_int (int_of_nat n)
+  | ECtx n -> "C" ^ string_of_int (int_of_nat n)
+  | EInvalid -> "I" | EExit -> "X"
+let parse_oerr s = if s = "-" then None else Some (parse_err s)
+let show_oerr = function None -> "-" | Some e -> show_err e
+let parse_outcome = function
+  | ["ok"] -> OOk | ["err"; n] -> OErr (nat n) | ["exit"] -> OGoexit | _ -> failwith "bad outcome"
+let show_outcome = function OOk -> "ok" | OErr n -> "err " ^ string_of_int (int_of_nat n) | OGoexit -> "exit"
+let parse_errs s = if s = "nil" then [] else List.map parse_err (String.split_on_char ',' s)
+let show_errs = function [] -> "nil" | l -> String.concat "," (List.map show_err l)
+
+let parse_act toks =
+  match toks with
+  | ["CE"] -> ACallerEnq | ["CW"] -> ACallerWait | ["CRC"] -> ACallerRetCtx | ["CRF"] -> ACallerRetFin
+  | ["LD"; w] -> ALoopDispatch (nat w) | ["LER"] -> ALoopEnqRecv | ["LEC"] -> ALoopEnqClosed
+  | ["LDN"; i] -> ALoopDone (nat i) | ["LT"] -> ALoopTick | ["LDR"] -> ALoopDrain | ["LF"] -> ALoopFinish
+  | ["WC"; w] -> AWorkerCheck (nat w) | "WE" :: w :: o -> AWorkerEnd (nat w, parse_outcome o)
+  | ["WP"; w] -> AWorkerPost (nat w) | ["WX"; w] -> AWorkerExit (nat w)
+  | ["X"; c] -> ACancel (nat c)
+  | _ -> failwith ("bad action: " ^ String.concat " " toks)
+
+let parse_event toks =
+  match toks with
+  | ["EnqSent"; j] -> EvEnqSent (nat j) | ["WaitCalled"] -> EvWaitCalled | ["Ret"; r] -> EvRet (parse_errs r)
+  | ["EnqRecv"; j] -> EvEnqRecv (nat j) | ["Dispatch"; j; w] -> EvDispatch (nat j, nat w)
+  | ["DoneRecv"; j; r] -> EvDoneRecv (nat j, parse_oerr r)
+  | ["Tick"; p; r; w; i; c] ->
+      let z x = z_of_int (int_of_string x) in EvTick (z p, z r, z w, z i, z c)
+  | ["EnqClosed"] -> EvEnqClosed | ["LoopExit"] -> EvLoopExit | ["Drained"; j] -> EvDrained (nat j)
+  | ["Finish"] -> EvFinish | ["Start"; j] -> EvStart (nat j) | ["Skip"; j; e] -> EvSkip (nat j, parse_err e)
+  | "End" :: j :: o -> EvEnd (nat j, parse_outcome o) | ["Post"; j] -> EvPost (nat j)
+  | ["WExit"; w] -> EvWExit (nat w) | ["Cancel"; c] -> EvCancel (nat c)
+  | _ -> failwith ("bad event: " ^ String.concat " " toks)
+
+let show_event = function
+  | EvEnqSent j -> "EnqSent " ^ string_of_int (int_of_nat j) | EvWaitCalled -> "WaitCalled"
+  | EvRet r -> "Ret " ^ show_errs r | EvEnqRecv j -> "EnqRecv " ^ string_of_int (int_of_nat j)
+  | EvDispatch (j, w) -> Printf.sprintf "Dispatch %d %d" (int_of_nat j) (int_of_nat w)
+  | EvDoneRecv (j, r) -> Printf.sprintf "DoneRecv %d %s" (int_of_nat j) (show_oerr r)
+  | EvTick (p, r, w, i, c) -> Printf.sprintf "Tick %d %d %d %d %d" (int_of_z p) (int_of_z r) (int_of_z w) (int_of_z i) (int_of_z c)
+  | EvEnqClosed -> "EnqClosed" | EvLoopExit -> "LoopExit" | EvDrained j -> "Drained " ^ string_of_int (int_of_nat j)
+  | EvFinish -> "Finish" | EvStart j -> "Start " ^ string_of_int (int_of_nat j)
+  | EvSkip (j, e) -> Printf.sprintf "Skip %d %s" (int_of_nat j) (show_err e)
+  | EvEnd (j, o) -> Printf.sprintf "End %d %s" (int_of_nat j) (show_outcome o)
+  | EvPost j -> "Post " ^ string_of_int (int_of_nat j) | EvWExit w -> "WExit " ^ string_of_int (int_of_nat w)
+  | EvCancel c -> "Cancel " ^ string_of_int (int_of_nat c)
+
+let show_wst = function
+  | WIdle -> "idle" | WGot j -> "got" ^ string_of_int (int_of_nat j) | WRun j -> "run" ^ string_of_int (int_of_nat j)
+  | WPost (j, r) -> "post" ^ string_of_int (int_of_nat j) ^ ":" ^ show_oerr r | WExit -> "exit"
+let show_state s =
+  Printf.sprintf "lp=%s cp=%s enq=[%s] closed=%b nil=%b ready=[%s] ongoing=%d pending=%d waiting=%d donec=[%s] workers=[%s] serr=%s cancelled=[%s]"
+    (match s.lp with LRun -> "run" | LDrain -> "drain" | LFin -> "fin")
+    (match s.cp with CEnq k -> "enq" ^ string_of_int (int_of_nat k) | CWait -> "wait" | CRet r -> "ret:" ^ show_errs r)
+    (String.concat "," (List.map (fun j -> string_of_int (int_of_nat j)) s.enq)) s.enq_closed s.enq_nil
+    (String.concat "," (List.map (fun j -> string_of_int (int_of_nat j)) s.ready))
+    (int_of_z s.ongoing) (int_of_z s.pending) (int_of_z s.waiting)
+    (String.concat "," (List.map (fun (j, r) -> string_of_int (int_of_nat j) ^ ":" ^ show_oerr r) s.donec))
+    (String.concat "," (List.map show_wst s.workers)) (show_errs s.serr)
+    (String.concat "," (List.map (fun j -> string_of_int (int_of_nat j)) s.cancelled))
+
+(* Case format:
+     CFG <N> <coe 0/1> <gated 0/1> <wctx>
+     JOB <ctx> <dep> <dep> ...
+     ACT <action> | <event> ; <event> ...
+     END
+   one verdict line per case. *)
+let cmd_sched_replay () =
+  let cfgline = ref None and jobsr = ref [] and acts = ref [] in
+  let flush () =
+    (match !cfgline with
+     | None -> ()
+     | Some (n, coe, gated, wctx) ->
+       let c = { cN = n; ccoe = coe; cgated = gated; cprog = List.rev !jobsr; cwctx = wctx } in
+       if not (wf_cfg_b c) then print_endline "BADCFG"
+       else
+         match replay c (init c) O (List.rev !acts) with
+         | RpOk s ->
+           Printf.printf "OK final=%b ret=%s\n" (is_final s)
+             (match s.cp with CRet r -> show_errs r | _ -> "none")
+         | RpDisabled (n, s) -> Printf.printf "DISABLED %d | %s\n" (int_of_nat n) (show_state s)
+         | RpMismatch (n, s, got) ->
+           Printf.printf "MISMATCH %d | model: %s | %s\n" (int_of_nat n)
+             (String.concat " ; " (List.map show_event got)) (show_state s));
+    cfgline := None; jobsr := []; acts := [] in
+  try
+    while true do
+      let line = input_line stdin in
+      match split_ws line with
+      | "CFG" :: n :: coe :: gated :: wctx :: _ ->
+        cfgline := Some (nat n, coe = "1", gated = "1", nat wctx)
+      | "JOB" :: ctx :: deps -> jobsr := { jdeps = List.map nat deps; jctx = nat ctx } :: !jobsr
+      | "ACT" :: rest ->
+        let s = String.concat " " rest in
+        let (a, evs) =
+          match String.index_opt s '|' with
+          | None -> (s, "")
+          | Some i -> (String.sub s 0 i, String.sub s (i + 1) (String.length s - i - 1)) in
+        let evl = List.filter (fun x -> split_ws x <> []) (String.split_on_char ';' evs) in
+        acts := (parse_act (split_ws a), List.map (fun e -> parse_event (split_ws e)) evl) :: !acts
+      | ["END"] -> flush ()
+      | [] -> ()
+      | _ -> failwith ("bad line: " ^ line)
+    done
+  with End_of_file -> flush ()
+
 let () =
   match Array.to_list Sys.argv with
+  | _ :: "sched-replay" :: _ -> cmd_sched_replay ()
   | _ :: "invert" :: _ -> cmd_invert ()
   | _ :: "genname" :: _ -> cmd_genname ()
   | _ :: "table" :: _ -> cmd_table ()
